@@ -87,7 +87,7 @@ def gen_composition(rng, maxops=12):
         elif k == "minion":
             ns, name = rng.choice(arbgen.NSS), rng.choice(["m1", "m2", "m3"])
             o = w.ident("ing", ns, name)
-            ps = [rng.choice(["/p", "/q", "/r"]) for _ in range(1 + rng.below(3))]
+            ps = [rng.choice(["/p", "/q", "/r", "/p", "/q", "/r", "E", "/"]) for _ in range(1 + rng.below(3))]      # E = the empty path
             if not rng.chance(1, 8):
                 ps = list(dict.fromkeys(ps))
             ops.append("ing|%s|%s|%s|%d|%d|_|%s|%s|m|0|%s>%s" % (ns, name, o["uid"], o["ts"], o["gen"], "0" if rng.chance(1, 12) else "1",
@@ -132,7 +132,7 @@ def gen_minion_contention(rng):
     for name in rng.shuffle(["m1", "m2", "m3", "m4", "m5"])[: 3 + rng.below(3)]:
         ns = rng.choice(arbgen.NSS)
         o = w.ident("ing", ns, name)
-        ps = rng.shuffle(["/p", "/q"])[: 1 + rng.below(2)]
+        ps = rng.shuffle(["/p", "/q", "E"])[: 1 + rng.below(2)]
         mins.append("ing|%s|%s|%s|%d|%d|_|1|1|m|0|a.ex>%s" % (ns, name, o["uid"], o["ts"], o["gen"], "+".join(ps)))
     ops = rng.shuffle([master] + mins)
     if rng.chance(1, 2):
